@@ -18,6 +18,8 @@ pub mod addr;
 pub mod netinfo;
 pub mod packet;
 pub mod raw;
+#[cfg(erbium_verif)]
+pub mod sim;
 pub mod socket;
 pub mod udp;
 
